@@ -450,7 +450,10 @@ func genFsCase(r *Rng, family string) *FsCase {
 	// a destination whose own name looks like a whiteout or an opaque marker, with an entry that names the
 	// destination itself: the guards on the whiteout's directory and target are what keeps the siblings safe
 	if (op == "layer" || op == "untar") && dest == "/w/dest" && r.chance(1, 14) {
-		nd := r.pick([]string{"/w/.wh..wh..opq", "/w/.wh.dest2", "/w/.wh.secret", "/w/.wh.outdir"})
+		nd := r.pick([]string{"/w/.wh..wh..opq", "/w/.wh.dest2", "/w/.wh.secret", "/w/.wh.outdir", "/w/.wh.fresh", "/w/.wh.fresh"})
+		if r.chance(1, 2) {
+			c.Opts.Overlay = true // the overlay converter derives paths from the entry's path: also from the destination's own name
+		}
 		for i := range c.Nodes {
 			if c.Nodes[i].Path == "/w/dest" {
 				c.Nodes[i].Path = nd
